@@ -4,7 +4,7 @@
 
 use crate::{guard, KeySet};
 use crate::util::*;
-use rug::Integer;
+use rug::{ops::Pow, Integer};
 use serde_json::{json, Value};
 use sha2::digest::Digest;
 use std::sync::Mutex;
@@ -77,7 +77,7 @@ where
             0 => Integer::from(0),
             1 => a1.clone(),
             2 => a2.clone(),
-            _ => Integer::from(Integer::from(1) << C::lm) - 1,       // the largest attribute value
+            _ => Integer::from(2).pow(C::lm) - 1u32,       // the largest attribute value
         })
     };
     let vecm = |v: &Value| -> Vec<CL03Message> { v.as_array().unwrap().iter().map(|a| val(a)).collect() };
